@@ -260,6 +260,7 @@ func init() {
 				{Pkg: fsm, Func: "VH_C02_readonly", Args: []int64{1, 2, 1}, Unwind: 32},
 				{Pkg: fsm, Func: "VH_C02_inbatch", Args: []int64{0, 1, 1}, Unwind: 32},
 				{Pkg: fsm, Func: "VH_C02_inbatch", Args: []int64{1, 1, 1}, Unwind: 32},
+				{Pkg: fsm, Func: "VH_C02_readonly_concurrent", Unwind: 32, EngineOnly: true},
 				{Pkg: fsm, Func: "VH_C02_vacuity", Expect: "violated"},
 			}
 			if tier == "thorough" {
@@ -269,9 +270,9 @@ func init() {
 			}
 			return r
 		},
-		Covers: map[string][]string{"VH_C02_txn": {"end"}, "VH_C02_readonly": {"end"}, "VH_C02_inbatch": {"end", "success-branch", "failure-branch"}},
+		Covers: map[string][]string{"VH_C02_txn": {"end"}, "VH_C02_readonly": {"end"}, "VH_C02_inbatch": {"end", "success-branch", "failure-branch"}, "VH_C02_readonly_concurrent": {"end"}},
 		Bounds: map[string]string{
-			"quick":    "transactions with (1 predicate, 1 success op), (0 predicates, 2 success ops), (2 predicates, 0 success ops), each with a one-put failure branch; predicates: any result enum, with/without value target, single key or range; ops: range / put / delete(range) with all flags; pre-state 0..1 pairs (0 for the two-op shape), 1-byte keys/values; read-only transaction (1 predicate) on 0..2 pairs; a transaction (1 predicate, one-put branches) after a plain put / delete / wildcard range delete in the same apply call and in the same command sequence, pre-state 0..1 pairs",
+			"quick":    "transactions with (1 predicate, 1 success op), (0 predicates, 2 success ops), (2 predicates, 0 success ops), each with a one-put failure branch; predicates: any result enum, with/without value target, single key or range; ops: range / put / delete(range) with all flags; pre-state 0..1 pairs (0 for the two-op shape), 1-byte keys/values; read-only transaction (1 predicate) on 0..2 pairs; a transaction (1 predicate, one-put branches) after a plain put / delete / wildcard range delete in the same apply call and in the same command sequence, pre-state 0..1 pairs; a read-only transaction (value predicate on k, get k in both branches) racing with a put of k under every interleaving of their database-handle operations (engine only): the answer is that of the state before or after the put",
 			"thorough": "adds the two-op shape on a 0..1-pair state",
 		},
 		Outside:     "longer predicate / operation lists; operations with an empty oneof (C16); crash atomicity (C04: one Pebble batch, one commit)",
@@ -457,11 +458,12 @@ func init() {
 			}
 			// (two records with cuts at every byte position exceed the path budget: the
 			// two-record case is covered with whole reads and short reads, [2 2])
+			r = append(r, &Instance{Pkg: "regattaserver", Func: "VH_C18_recvbuffers", Unwind: 64, EngineOnly: true})
 			r = append(r, &Instance{Pkg: sn, Func: "VH_C18_framing_vacuity", Expect: "violated"})
 			r = append(r, &Instance{Pkg: pb, Func: "VH_C18_vacuity", Expect: "violated"})
 			return r
 		},
-		Covers: map[string][]string{"VH_C18_mvcc": {"end"}, "VH_C18_api": {"end"}, "VH_C18_replication": {"end"}, "VH_C18_pooledsend": {"end"}, "VH_C18_framing": {"end"}},
+		Covers: map[string][]string{"VH_C18_mvcc": {"end"}, "VH_C18_api": {"end"}, "VH_C18_replication": {"end"}, "VH_C18_pooledsend": {"end"}, "VH_C18_framing": {"end"}, "VH_C18_recvbuffers": {"end", "codec-aliases-receive-buffer"}},
 		Bounds: map[string]string{
 			"quick":    "messages: every shape of Command (own optional fields; kv; batch 0..2; txn with 0..1 compare/success/failure of every op kind; sequence of 1..2), CommandResult, Txn, RequestOp, ResponseOp, Compare, KeyValue, Range/Put/DeleteRange/Txn request+response, ResponseHeader, ReplicateRequest/Response (all arms), SnapshotChunk; per run one byte-length class (absent, 1, 2 bytes) and one varint class (0; 1..64; 128..383; top bit set) for all fields of the message, every field with its own symbolic content; KeyValue and SnapshotChunk additionally with independent classes per field; SnapshotChunk into a pooled object that held another chunk, and re-used after ResetVT; Command built on a recycled pooled object. framing: 1 record of 1..3 arbitrary bytes, stream cut at every position (reader hands out 1..n bytes per call), received via WriteTo and via Read; 1 record (thorough: 2) read back through a reader that may return short reads (full / 1 byte / half) at every call (engine only)",
 			"thorough": "as quick, with the short-read framing instance over 2 records instead of 1 (engine only)",
@@ -526,6 +528,9 @@ func init() {
 				{Pkg: rp, Func: "VH_C05_round", Args: []int64{1, 4, 1, 1, 14}, Unwind: 64, NoWitness: true},
 				{Pkg: rp, Func: "VH_C05_round", Args: []int64{2, 2, 0, 1, 7}, Unwind: 64, NoWitness: true},
 				{Pkg: rp, Func: "VH_C05_split", Args: []int64{4}, Unwind: 64, NoWitness: true},
+				// recovery by snapshot: the stream a lagging follower installs is the leader's
+				// table at exactly the index it declares (shared with C07)
+				{Pkg: "storage/table/fsm", Func: "VH_C07_pointintime", Unwind: 64, EngineOnly: true},
 				{Pkg: rp, Func: "VH_C05_vacuity", Expect: "violated"},
 			}
 			if tier == "thorough" {
@@ -533,9 +538,9 @@ func init() {
 			}
 			return r
 		},
-		Covers: map[string][]string{"VH_C05_round": {"end", "completed"}, "VH_C05_split": {"end"}},
+		Covers: map[string][]string{"VH_C05_round": {"end", "completed"}, "VH_C05_split": {"end"}, "VH_C07_pointintime": {"end", "old", "new"}},
 		Bounds: map[string]string{
-			"quick":    "one replication round (real worker.do + proposeBatch pulling from the real LogServer.Replicate over logreader.Simple): leader table in an arbitrary state (0..1 pairs of 1-byte arbitrary key/value) at an arbitrary index L (1 <= L < 2^14, so one- and two-byte varints and the step between them) with the log compacted up to L; follower with the same content, recorded leader index L and an unrelated own index; the leader then applies m commands: m=0; m=1 of 4 kinds (put, delete, range delete, non-idempotent transaction / dummy as generated by vhArbCommand); m=2 of 2 kinds with L < 2^7; arbitrary 64-bit message-size limit (0 = default), so the stream is cut at every position; the stream deadline may pass on the server at any loop iteration (symbolic clock); oracle: follower content == leader content at exactly the follower's recorded leader index, which is one the leader produced and never moves backwards, and a completed round ends at the leader's applied index with result 'tailing'; (split) one message carrying an arbitrary command of 4 kinds, a put with a 300 KiB value and a small put, so that proposeBatch cuts the message into two proposals at desiredProposalSize: every command applied exactly once",
+			"quick":    "one replication round (real worker.do + proposeBatch pulling from the real LogServer.Replicate over logreader.Simple): leader table in an arbitrary state (0..1 pairs of 1-byte arbitrary key/value) at an arbitrary index L (1 <= L < 2^14, so one- and two-byte varints and the step between them) with the log compacted up to L; follower with the same content, recorded leader index L and an unrelated own index; the leader then applies m commands: m=0; m=1 of 4 kinds (put, delete, range delete, non-idempotent transaction / dummy as generated by vhArbCommand); m=2 of 2 kinds with L < 2^7; arbitrary 64-bit message-size limit (0 = default), so the stream is cut at every position; the stream deadline may pass on the server at any loop iteration (symbolic clock); oracle: follower content == leader content at exactly the follower's recorded leader index, which is one the leader produced and never moves backwards, and a completed round ends at the leader's applied index with result 'tailing'; (split) one message carrying an arbitrary command of 4 kinds, a put with a 300 KiB value and a small put, so that proposeBatch cuts the message into two proposals at desiredProposalSize: every command applied exactly once; (recovery) the stream produced for a follower that recovers by snapshot, with one leader write applied concurrently under every interleaving of their database operations (engine only): content and declared index belong to the same state",
 			"thorough": "quick + m=2 (2 kinds) with L < 2^14 (two commands of all 4 kinds over a non-empty table exceed the path budget of 200000 and are not claimed)",
 		},
 		Outside: "proposal-size cuts at other positions than after the second of three commands; the lease/queue scheduling around do() (worker.Start loop, timers, metrics); snapshot recovery when the leader log is ahead (USE_SNAPSHOT path: asserted unreachable here, covered for content by C07); gRPC transport (the stream is an in-memory marshal/unmarshal copy of each message); more than 2 new commands per round; Cached log reader in this round (C06 covers the reader itself); leader-side concurrency (new entries applied while streaming)",
